@@ -357,16 +357,12 @@ func stallObs(cls []*sclient, l *Logger, lt *Light, w *World) *Obs {
 		names = w.Names()
 	}
 	o := &Obs{}
-	var evs []Ev
-	if l != nil {
-		evs = l.Snapshot()
-	}
 	for _, c := range cls {
 		po := ProcObs{S: c.idx, Cmd: strings.SplitN(c.cur.Load().(string), "\r\n", 2)[0]}
 		if atomic.LoadInt64(&c.since) == 0 {
 			po.Completed = true
 		} else if l != nil {
-			fillBlocked(&po, evs, names, dump)
+			fillBlocked(&po, l, names, dump)
 		} else {
 			for gid, g := range lt.gs {
 				if g.sess != c.idx || g.want.mu == 0 {
